@@ -14,7 +14,7 @@ RULE = ("random plain-data trees (depth <= 5, <= 40 leaves) over null/bool/int (
         "formats and options, and XML is decoded under every other root tag (must be rejected); out-of-domain "
         "(tree, format) pairs are skipped and counted; non-trivial = tree with >= 3 nodes in the domain of >= 2 "
         "formats; distinct = distinct tree")
-REQUIRED = ("roundtrip:json", "roundtrip:yaml", "roundtrip:bson", "roundtrip:xml", "roundtrip:pickle",
+REQUIRED = ("second_decodes_after_mutation", "roundtrip:json", "roundtrip:yaml", "roundtrip:bson", "roundtrip:xml", "roundtrip:pickle",
             "cross_format_comparisons", "option_comparisons", "xml_wrong_root_rejected")
 ASSUMPTIONS = ["domains are the ones stated in the property (XML: XML 1.0 characters without CR and keys that are "
                "XML names; BSON: signed 64-bit integers, keys without NUL), plus: no lone surrogates, integers "
@@ -45,6 +45,23 @@ def _count_nodes(v):
     if isinstance(v, list):
         return 1 + sum(_count_nodes(x) for x in v)
     return 1
+
+
+def _scramble(t, depth=0):
+    """Change every list / dict of a decoded tree in place (the caller owns what a decode returns)."""
+    if depth > 12:
+        return
+    if isinstance(t, dict):
+        for v in list(t.values()):
+            _scramble(v, depth + 1)
+        for k in list(t)[:1]:
+            del t[k]
+        t["__scrambled__"] = [1]
+    elif isinstance(t, list):
+        for v in t:
+            _scramble(v, depth + 1)
+        t.append("__scrambled__")
+        t.reverse()
 
 
 def run(case, ctx, res):
@@ -80,6 +97,22 @@ def run(case, ctx, res):
             if diff:
                 res.viol("M-roundtrip", "%s:%s" % (fmt, diff[1]), "%s: at %s %s" % (label, diff[0], diff[2]))
             per_opt.append((label, back))
+            # decoding is a function of the bytes alone: the caller changes every container of a first result in place,
+            # a second decode of the same bytes (new codec object) must still give the encoded tree, and the input tree
+            # must be as it was
+            if _count_nodes(tree) >= 2:
+                try:
+                    first = cc.ConfigFormat.get(fmt, **opts).loads(cfg, blob)
+                    _scramble(first)
+                    again = cc.ConfigFormat.get(fmt, **opts).loads(cfg, blob)
+                except Exception as exc:
+                    res.viol("M-roundtrip", fmt + ":second-decode-raises", "%s: decoding the same bytes again raised %r" % (label, exc))
+                    continue
+                res.count("second_decodes_after_mutation")
+                diff = trees.first_difference(tree, again)
+                if diff:
+                    res.viol("M-roundtrip", "%s:second-decode:%s" % (fmt, diff[1]), "%s: the same bytes decoded again after the first result "
+                             "was changed in place: at %s %s" % (label, diff[0], diff[2]))
             # wrong root tag must be rejected
             if fmt == "xml":
                 mine = opts.get("root_tag", "config")
